@@ -221,7 +221,7 @@ fn later_page_checks(out: &mut Out, what: &str, chain: &[A], k: usize, o: &Obs, 
 
 fn later_page_cases(out: &mut Out, rng: &mut Rng, toks: &mut Toks, thorough: bool) {
     let chains = [vec![A::P(3)], vec![A::E, A::P(3)], vec![A::P(3), A::E]];
-    let reps = if thorough { 6 } else { 2 };
+    let reps = if thorough { 24 } else { 2 };
     for chain in &chains {
         for k in 2..=4usize {
             for _ in 0..reps {
@@ -340,7 +340,7 @@ pub fn run(thorough: bool, mut rng: Rng, mut out: Out) {
         }
     }
     // 2. a caller-supplied paging control: rejected when the search starts, nothing is sent
-    for k in 0..(if thorough { 200 } else { 40 }) {
+    for k in 0..(if thorough { 1200 } else { 40 }) {
         let size = rng.range(1, 10) as i32;
         let chain = mk_chain(&chains[k % 3], size);
         let mut cs: Vec<ReqCtl> = (0..rng.below(3)).map(|_| ReqCtl::Other(rng.range(1, 900))).collect();
@@ -358,7 +358,7 @@ pub fn run(thorough: bool, mut rng: Rng, mut out: Out) {
         );
     }
     // 3. follow-up page cannot be submitted (connection lost after a page) / disconnect / silence in a later page
-    for k in 0..(if thorough { 300 } else { 60 }) {
+    for k in 0..(if thorough { 1800 } else { 60 }) {
         let size = 2;
         let chain = mk_chain(&chains[k % 3], size);
         let mut pages = vec![];
@@ -391,7 +391,7 @@ pub fn run(thorough: bool, mut rng: Rng, mut out: Out) {
         out.stat(&format!("later-page-fault={}", match mode { 0 => "cannot-submit", 1 => "disconnect", 2 => "silence", _ => "no-answer" }));
     }
     // 4. a paging control without a value: `raw.parse()` panics (caller side) — model correspondence
-    for k in 0..(if thorough { 30 } else { 9 }) {
+    for k in 0..(if thorough { 150 } else { 9 }) {
         let chain = mk_chain(&chains[k % 3], 2);
         let pages = vec![Page::Script(vec![Recv::Item(mk_item(K::E, &mut toks, vec![])), Recv::Done(Done { rc: 0, refs: vec![], ctls: vec![RespCtl { paged: true, cookie: None, tok: 0 }], tok: toks.next() })])];
         let sc = Scenario { chain, handle: Handle::default(), qtok: 1, filter_ok: true, pages, calls: vec![Call::Next, Call::Next, Call::Finish] };
@@ -401,7 +401,7 @@ pub fn run(thorough: bool, mut rng: Rng, mut out: Out) {
     }
     // 5. non-default search options + caller controls + a stream time-out, at least three pages: every
     //    SearchRequest on the wire decodes to the same request, the paging cookie apart
-    for k in 0..(if thorough { 60 } else { 12 }) {
+    for k in 0..(if thorough { 300 } else { 12 }) {
         let size = rng.range(1, 4) as i32;
         let chain = mk_chain(&chains[k % 3], size);
         let n_pages = 3 + k % 3;
